@@ -11,6 +11,7 @@ import (
 	"encoding/json"
 	"errors"
 	"fmt"
+	"github.com/AdguardTeam/AdGuardHome/internal/dhcpd"
 	"os"
 	"os/exec"
 	"path/filepath"
@@ -529,6 +530,9 @@ func run(c *lib.Ctx) {
 	if c.Mine(7) && os.Getenv("VERIF_C14_ONLY") == "" {
 		concurrentSaves(c)
 	}
+	if c.Mine(8) && os.Getenv("VERIF_C14_ONLY") == "" {
+		loadKeepsDatabase(c)
+	}
 	idx := 0
 	for si, sc := range scenarios(c.Tier) {
 		if c.Expired() {
@@ -651,6 +655,46 @@ func (r *runner) explore(rec *recording) {
 // and the periodic workers all end in configuration.write).  Free-running under
 // the race detector (engine E4): no data race in the writer, and the stored
 // file is one complete document.
+// loadKeepsDatabase: starting the DHCP server on an existing lease database
+// (IPv4 and IPv6 reservations) is not a save: at no instant of the start may
+// the path hold anything but that database, so after the start it is byte for
+// byte what it was.
+func loadKeepsDatabase(c *lib.Ctx) {
+	dir, err := os.MkdirTemp(c.TmpDir, "c14load-")
+	if err != nil {
+		c.EngineError(err.Error())
+		return
+	}
+	defer os.RemoveAll(dir)
+	doc := `{"version":1,"leases":[{"expires":"","ip":"10.0.0.5","hostname":"four","mac":"02:00:00:00:00:05","static":true},` +
+		`{"expires":"","ip":"2001:db8::5","hostname":"six","mac":"02:00:00:00:00:06","static":true},` +
+		`{"expires":"2031-02-03T04:05:06Z","ip":"10.0.0.9","hostname":"nine","mac":"02:00:00:00:00:09","static":false}]}`
+	srv0, err := dhcpd.VerifC14New(dir)
+	if err != nil {
+		c.EngineError("load pass: " + err.Error())
+		return
+	}
+	path := srv0.DBPath()
+	if err = os.MkdirAll(filepath.Dir(path), 0o755); err == nil {
+		err = os.WriteFile(path, []byte(doc), 0o644)
+	}
+	if err != nil {
+		c.EngineError("load pass: " + err.Error())
+		return
+	}
+	c.Count("evals", 1)
+	if _, err = dhcpd.VerifC14New(dir); err != nil {
+		c.EngineError("load pass: start on the prepared database: " + err.Error())
+		return
+	}
+	got, _ := os.ReadFile(path)
+	if string(got) != doc {
+		c.Violation("start-rewrites-lease-database", fmt.Sprintf("the server was started on a lease database with IPv4 and IPv6 reservations and no lease changed; the file now holds %q, it held %q", got, doc),
+			caseC{Mode: "load"})
+	}
+	c.Distinct("nontrivial", "load")
+}
+
 func concurrentSaves(c *lib.Ctx) {
 	bin := os.Getenv("VERIF_RACE_BIN")
 	if bin == "" {
@@ -706,6 +750,14 @@ func replay(c *lib.Ctx, raw json.RawMessage) string {
 	var cs caseC
 	if err := json.Unmarshal(raw, &cs); err != nil {
 		return err.Error()
+	}
+	if cs.Mode == "load" {
+		before := c.NumViolationKeys()
+		loadKeepsDatabase(c)
+		if c.NumViolationKeys() > before {
+			return "violation reproduced (start rewrites the lease database)"
+		}
+		return ""
 	}
 	if cs.Mode == "race" {
 		before := c.NumViolationKeys()
